@@ -1207,7 +1207,13 @@ VmTrap vm_core_execute(VmState *vm) {
                 return trap_error(vm, VM_ERR_TYPE_ERROR, "ARR_REMOVE: not an array");
             }
             uint32_t idx = (uint32_t)(idx_v.tag == TAG_INT ? idx_v.as.i64 : 0);
+            /* The array owns a reference to the element it drops */
+            NanoValue removed = val_void();
+            if (arr.as.array && idx < arr.as.array->length) {
+                removed = arr.as.array->elements[idx];
+            }
             vm_array_remove(arr.as.array, idx);
+            vm_release(&vm->heap, removed);
             stack_push(vm, arr);
             break;
         }
